@@ -355,6 +355,26 @@ def random_molecule(rng, k):
     return mol
 
 
+def many_fragments_molecule():
+    """ONE molecule of 257 fragments (vote counters must not be narrower than the number of fragments):
+    position 1 (CGA): 256 fragments show the conversion, 1 does not            -> strict plurality of 256:1
+    position 6 (CAG): outside the 257th fragment's safe span, converted in all -> exactly 256 agreeing observations"""
+    ref = 'TCGATTCAGT'
+    def frag(conv1, r2_end):
+        b1 = list(ref[0:8])
+        b2 = list(ref[2:r2_end])
+        if conv1:
+            b1[1] = 'T'
+        b1[6] = 'T'
+        if r2_end > 6:
+            b2[6 - 2] = 'T'
+        return {'reads': [{'mate': 1, 'rev': False, 'start': 0, 'cigar': [[0, 8]], 'seq': b1, 'qual': [30] * 8},
+                          {'mate': 2, 'rev': True, 'start': 2, 'cigar': [[0, r2_end - 2]], 'seq': b2, 'qual': [30] * (r2_end - 2)}]}
+    frags = [frag(True, 10) for _ in range(256)] + [frag(False, 5)]
+    return {'src': 'many_fragments', 'cls': 'chic', 'conv': 'F', 'contig': 'many257', 'ref': ref, 'frags': frags,
+            'tags': {'lh': 'TA'}, 'refobj': 'cached', 'history': 'once'}
+
+
 # ------------------------------------------------------------------------------------------------
 # scenarios generated by TLC (spec -> code)
 
@@ -401,6 +421,7 @@ def main():
     rng = random.Random(seed)
     n_random = 400 if tier == 'quick' else 20000
     mols = [random_molecule(rng, k) for k in range(n_random)]
+    mols.append(many_fragments_molecule())
     for path in scn_files:
         with open(path) as f:
             d = json.load(f)
